@@ -922,6 +922,227 @@ func c16D(c *h.Ctx) {
 var teLocked = []string{"UpdateTablePlayers", "PlayerReserve", "PlayersLeave", "PlayerReady", "PlayerPay", "PlayerBet", "PlayerRaise", "PlayerCall", "PlayerAllin", "PlayerCheck", "PlayerFold", "PlayerPass", "tableGameOpen", "updateCurrentPlayerGameStatistics"}
 var smLocked = []string{"AssignSeats", "RandomAssignSeats", "RemoveSeats", "JoinPlayers", "UpdatePlayerHasChips", "InitPositions", "RotatePositions", "IsPlayerActive", "ListPlayerSeatsFromDealer"}
 
+
+// ---- part F (round 7) -------------------------------------------------------
+// c16F: many callers at the same time, but on different objects: 4..8 tables and bare seat managers of the same size
+// in one process, each with exactly one caller, all busy at once. Every object must behave exactly as if it were alone
+// (its own sequential model after every call): a buffer, cache or default object shared between tables or seat
+// managers shows up as a double booking, a lost player or a seat map out of step.
+func c16F(c *h.Ctx) {
+	r := c.R
+	k := 4 + r.Intn(5)
+	seats := 2 + r.Intn(9)
+	rounds := 120 + r.Intn(120)
+	var mu sync.Mutex
+	sig, det := "", ""
+	var wit interface{}
+	fail := func(s, d string, w interface{}) {
+		mu.Lock()
+		if sig == "" {
+			sig, det, wit = s, d, w
+		}
+		mu.Unlock()
+	}
+	failed := func() bool { mu.Lock(); defer mu.Unlock(); return sig != "" }
+	var ops, createErr int64
+	start := make(chan struct{})
+	var wg sync.WaitGroup
+	for w := 0; w < k; w++ {
+		wr := rand.New(rand.NewSource(r.Int63()))
+		wg.Add(1)
+		if w%2 == 0 {
+			// a bare seat manager
+			go func(w int) {
+				defer wg.Done()
+				m := sm.NewSeatManager(seats, []string{"default", "short_deck"}[wr.Intn(2)])
+				model := map[string]int{}
+				var hist []string
+				nid := 0
+				<-start
+				for i := 0; i < rounds && !failed(); i++ {
+					taken := map[int]bool{}
+					for _, st := range model {
+						taken[st] = true
+					}
+					free := seats - len(model)
+					switch wr.Intn(4) {
+					case 0, 1:
+						n := 1 + wr.Intn(2)
+						var ids []string
+						for j := 0; j < n; j++ {
+							ids = append(ids, fmt.Sprintf("w%d-r%d", w, nid))
+							nid++
+						}
+						err := m.RandomAssignSeats(ids)
+						hist = append(hist, fmt.Sprintf("random%v err=%v", ids, err))
+						if (err == nil) != (free >= n) {
+							fail("C16/one-caller-per-object/seat-manager-answer-differs-from-sequential-model", fmt.Sprintf("seat manager %d (%d seats, %d taken): random assignment of %d players returned %v", w, seats, len(model), n, err), hist)
+							return
+						}
+						if err == nil {
+							st := smSnap(m)
+							for _, id := range ids {
+								got := -1
+								for seat, sp := range st.SeatData {
+									if sp != nil && sp.ID == id {
+										got = seat
+									}
+								}
+								if got < 0 || got >= seats || taken[got] {
+									fail("C16/one-caller-per-object/seat-manager-double-booking", fmt.Sprintf("seat manager %d: %s was given seat %d; seats held before the call: %v", w, id, got, model), hist)
+									return
+								}
+								taken[got] = true
+								model[id] = got
+							}
+						}
+					case 2:
+						id := fmt.Sprintf("w%d-r%d", w, nid)
+						nid++
+						seat := wr.Intn(seats)
+						err := m.AssignSeats(map[string]int{id: seat})
+						hist = append(hist, fmt.Sprintf("assign %s->%d err=%v", id, seat, err))
+						if (err == nil) != !taken[seat] {
+							fail("C16/one-caller-per-object/seat-manager-answer-differs-from-sequential-model", fmt.Sprintf("seat manager %d: assignment of seat %d (taken: %v) returned %v", w, seat, taken[seat], err), hist)
+							return
+						}
+						if err == nil {
+							model[id] = seat
+						}
+					default:
+						if len(model) == 0 {
+							continue
+						}
+						var ids []string
+						for id := range model {
+							ids = append(ids, id)
+						}
+						sort.Strings(ids)
+						id := ids[wr.Intn(len(ids))]
+						err := m.RemoveSeats([]string{id})
+						hist = append(hist, fmt.Sprintf("remove %s err=%v", id, err))
+						if err != nil {
+							fail("C16/one-caller-per-object/seat-manager-answer-differs-from-sequential-model", fmt.Sprintf("seat manager %d: removal of seated %s returned %v", w, id, err), hist)
+							return
+						}
+						delete(model, id)
+					}
+					atomic.AddInt64(&ops, 1)
+					st := smSnap(m)
+					seen := map[string]int{}
+					for seat, sp := range st.SeatData {
+						if sp != nil {
+							seen[sp.ID] = seat
+						}
+					}
+					if fmt.Sprint(seen) != fmt.Sprint(model) {
+						fail("C16/one-caller-per-object/seat-manager-state-differs-from-sequential-model", fmt.Sprintf("seat manager %d holds %v, its only caller seated %v", w, seen, model), hist)
+						return
+					}
+				}
+			}(w)
+			continue
+		}
+		// a table of its own engine
+		go func(w int) {
+			defer wg.Done()
+			cfg := h.GenTable(wr, h.GenOpts{MinSeats: seats, MaxSeats: seats, MinPlayers: 2, DeepOnly: true, Modes: []string{"ct", "cash"}, Rules: []string{"default"}})
+			cfg.Players = nil
+			st := cfg.Setting(false)
+			st.TableID = fmt.Sprintf("F%d", w)
+			s, err := h.NewSim(h.SimConfig{Setting: st, Interval: 0, LightTrace: true, NoGateSpy: true}, wr.Int63())
+			if err != nil {
+				atomic.AddInt64(&createErr, 1)
+				return
+			}
+			model := &c03Model{seats: seats, seatOf: map[string]int{}, isIn: map[string]bool{}}
+			var hist []string
+			nid := 0
+			<-start
+			for i := 0; i < rounds/3 && !failed(); i++ {
+				free := seats - len(model.seatOf)
+				switch wr.Intn(4) {
+				case 0, 1:
+					id := fmt.Sprintf("w%d-p%d", w, nid)
+					nid++
+					err := s.Reserve(id, -1, 1000)
+					hist = append(hist, fmt.Sprintf("reserve %s random err=%v", id, err))
+					if (err == nil) != (free >= 1) {
+						fail("C16/one-caller-per-object/table-answer-differs-from-sequential-model", fmt.Sprintf("table %d (%d seats, %d taken): random-seat reservation returned %v", w, seats, len(model.seatOf), err), hist)
+						return
+					}
+					if err == nil {
+						got := seatOf(s.Table(), id)
+						if got < 0 || got >= seats || model.taken(got) {
+							fail("C16/one-caller-per-object/table-double-booking", fmt.Sprintf("table %d: %s was given seat %d; seats held before the call: %v", w, id, got, model.seatOf), hist)
+							return
+						}
+						model.seatOf[id] = got
+					}
+				case 2:
+					id := fmt.Sprintf("w%d-p%d", w, nid)
+					nid++
+					seat := wr.Intn(seats)
+					err := s.Reserve(id, seat, 1000)
+					hist = append(hist, fmt.Sprintf("reserve %s seat %d err=%v", id, seat, err))
+					if (err == nil) != !model.taken(seat) {
+						fail("C16/one-caller-per-object/table-answer-differs-from-sequential-model", fmt.Sprintf("table %d: reservation of seat %d (taken: %v) returned %v", w, seat, model.taken(seat), err), hist)
+						return
+					}
+					if err == nil {
+						model.seatOf[id] = seat
+					}
+				default:
+					if len(model.seatOf) == 0 {
+						continue
+					}
+					var ids []string
+					for id := range model.seatOf {
+						ids = append(ids, id)
+					}
+					sort.Strings(ids)
+					id := ids[wr.Intn(len(ids))]
+					err := s.Leave(id)
+					hist = append(hist, fmt.Sprintf("leave %s err=%v", id, err))
+					if err != nil {
+						fail("C16/one-caller-per-object/table-answer-differs-from-sequential-model", fmt.Sprintf("table %d: departure of seated %s returned %v", w, id, err), hist)
+						return
+					}
+					delete(model.seatOf, id)
+					delete(model.isIn, id)
+				}
+				atomic.AddInt64(&ops, 1)
+				// (the engine's auto seat-in group may seat a newcomer in by itself: the seated-in flags are not modelled)
+				t := s.Table()
+				for _, ps := range t.State.PlayerStates {
+					if ps.IsIn {
+						model.isIn[ps.PlayerID] = true
+					}
+				}
+				if sg, d := c03Consistent(s, model); sg != "" && sg != "C03/seated-in-flag-differs" {
+					fail("C16/one-caller-per-object/"+sg, fmt.Sprintf("table %d: %s", w, d), hist)
+					return
+				}
+			}
+		}(w)
+	}
+	close(start)
+	wg.Wait()
+	if sig != "" {
+		c.Violate(sig, det, map[string]interface{}{"objects": k, "seats": seats, "history_of_the_failing_object": wit})
+		return
+	}
+	if createErr > 0 {
+		c.Inconclusive("table could not be created")
+		return
+	}
+	c.Count("F_ops", ops)
+	c.Feature("F:one-caller-per-object-many-objects-at-once")
+	c.Nontrivial()
+	c.FP("F", k, seats, rounds, c.Seed)
+	c.Sample(map[string]interface{}{"part": "F", "objects": k, "seats": seats, "calls": ops})
+}
+
 func lockedEntry(stack []string, recv string, names []string) string {
 	for _, f := range stack {
 		if !strings.Contains(f, recv) {
@@ -1078,7 +1299,7 @@ func init() {
 		ID:        "C16",
 		Level:     "exploration",
 		Technique: "runtime monitoring under the Go race detector: concurrent membership / seat-manager / game-action storms against the real code; recorded call histories checked for linearizability with porcupine against a sequential seat table, backend call chain checked for forks, race reports classified by whether both access stacks lie in sections serialised by the same lock",
-		Rule: "case i: i mod 3 = 0 -> part A (8..40 concurrent PlayerReserve fixed/random/re-buy, PlayersLeave, single-kind UpdateTablePlayers on one table, few hot seats), 1 -> part B (8..40 concurrent seat-manager mutators), 2 -> part C, except every twelfth case -> part D (1500 rounds on a full 2..4-seat table: one batch update replacing a player while five outside reservations hammer; none may ever succeed and the update may never fail); part C (one hand in which at every turn all participants fire fold/call/check/allin/raise/pass at once and the current player three legal actions); " +
+		Rule: "case i: i mod 3 = 0 -> part A (8..40 concurrent PlayerReserve fixed/random/re-buy, PlayersLeave, single-kind UpdateTablePlayers on one table, few hot seats), 1 -> part B (8..40 concurrent seat-manager mutators), 2 -> part C, except every twelfth case -> part D (every 24th case: part E, membership calls inside the open retry wait; every 24th: part F, 4..8 tables and bare seat managers of one size in one process, one caller each, all busy at once, each judged against its own sequential model after every call) (1500 rounds on a full 2..4-seat table: one batch update replacing a player while five outside reservations hammer; none may ever succeed and the update may never fail); part C (one hand in which at every turn all participants fire fold/call/check/allin/raise/pass at once and the current player three legal actions); " +
 			"non-trivial = the storm had overlapping calls (A: at least one pair of calls overlapping in time); distinct = fingerprint of the recorded history",
 		Assumptions: []string{
 			"linearizability is judged on histories of at most 40 operations; a checker timeout is inconclusive",
@@ -1088,7 +1309,7 @@ func init() {
 		Cases:         func(tier string) int { return map[string]int{"quick": 600, "thorough": 8000}[tier] },
 		MinNontrivial: func(tier string) int { return map[string]int{"quick": 300, "thorough": 4000}[tier] },
 		RequiredFeatures: func(string) []string {
-			return []string{"A:storm", "B:storm", "C:simultaneous-actions", "C:rapid-volley-before-publication", "D:batch-atomicity", "E:membership-calls-during-open-retry", "E:retry-opened-the-hand"}
+			return []string{"A:storm", "B:storm", "C:simultaneous-actions", "C:rapid-volley-before-publication", "D:batch-atomicity", "E:membership-calls-during-open-retry", "E:retry-opened-the-hand", "F:one-caller-per-object-many-objects-at-once"}
 		},
 		CaseTimeout:  120e9,
 		Race:         true,
@@ -1100,6 +1321,10 @@ func init() {
 			}
 			if c.Case%24 == 5 {
 				c16E(c)
+				return
+			}
+			if c.Case%24 == 17 {
+				c16F(c)
 				return
 			}
 			switch c.Case % 3 {
